@@ -13,11 +13,25 @@ package udphop
 //@ ghost var sockOpen (Array Int (Array Int Bool))
 //@ fnfield udpHopPacketConn.ListenUDPFunc(this) (c, err)
 //@   ensures isnil(err) ==> !isnil(c) && !selBool(sockOpen, this, payload(c))
+// a socket obtained by hop is private to that invocation (hopPriv, hopPrivOpen) until it is
+// installed as the current socket; then it enters sockOpen. Every invocation must end with its
+// socket installed or closed.
+//@ ghost var hopPriv Int
+//@ ghost var hopPrivOpen Bool
+//@ hook call udpHopPacketConn.ListenUDPFunc(this) in (*udpHopPacketConn).hop
+//@   update hopPrivOpen = false
 //@ hook after call udpHopPacketConn.ListenUDPFunc(this) (c, err) in (*udpHopPacketConn).hop
 //@   when isnil(err)
-//@   update sockOpen = upd(sockOpen, this, payload(c), true)
+//@   update hopPriv = payload(c)
+//@   update hopPrivOpen = true
+//@ hook store udpHopPacketConn.currentConn(obj, v) in (*udpHopPacketConn).hop
+//@   when hopPrivOpen && payload(v) == hopPriv
+//@   update sockOpen = upd(sockOpen, obj, payload(v), true)
+//@   update hopPrivOpen = false
+//@ monitor udpHopPacketConn.connMutex: closed, prevConn, currentConn, addrIndex
 //@ hook call PacketConn.Close(c) in (*udpHopPacketConn).hop | (*udpHopPacketConn).Close
 //@   update sockOpen = upd(sockOpen, u, payload(c), false)
+//@   update hopPrivOpen = hopPrivOpen && payload(c) != hopPriv
 //@ iface net.PacketConn.Close(c) (err)
 //@ iface net.PacketConn.SetDeadline(c, t) (err)
 //@ iface net.PacketConn.SetReadDeadline(c, t) (err)
@@ -31,8 +45,7 @@ package udphop
 //@   props C19
 //@   nonil
 //@   requires u.ListenUDPFunc != nil
-//@   ensures u.closed == old(u.closed)
-//@   ensures old(u.closed) ==> u.currentConn == old(u.currentConn) && u.prevConn == old(u.prevConn) && sockOpen == old(sockOpen)
+//@   ensures hopPrivOpen ==> old(hopPrivOpen)
 //@   modifies any
 
 // every packet goes out on the newest local socket, to one of the addresses of the port set
